@@ -253,6 +253,27 @@ impl Prop for Format {
                         format!("{:?}", got),
                     );
                 }
+                // rendering is a pure function: the same call after rendering a neighbouring value
+                // (1..13 days / a second away) gives the same text (caches, memo tables, reused buffers)
+                let h = (c.v.day as u64) ^ (c.v.ns as u64 >> 20);
+                if h % 4 == 0 && pattern.len() < 200 {
+                    let delta_days = [1i64, -1, 6, -6, 7, -7, 13, -13][(h / 4 % 8) as usize];
+                    let other = Inst { day: c.v.day + delta_days, ns: (c.v.ns + 1_000_000_000).min(86_399_999_999_999) };
+                    if other.day > cal::MIN_DAY + 1 && other.day < cal::MAX_DAY - 1 {
+                        let _ = format_value(c.kind, other, c.off, &pattern);
+                        match format_value(c.kind, c.v, c.off, &pattern) {
+                            Ok(again) if again == want => {}
+                            Ok(again) => {
+                                return fail(
+                                    "c11.depends_on_previous_call",
+                                    format!("{:?} {} [{}] .format({:?}) after formatting {} = {:?}", c.kind, fmt_instant(c.v.i()), c.off, pattern, fmt_instant(other.i()), want),
+                                    format!("{:?}", again),
+                                )
+                            }
+                            Err(p) => return fail("c11.format_panic", "second call returns", p.short()),
+                        }
+                    }
+                }
                 Verdict::Pass
             }
         }
